@@ -9,4 +9,8 @@ assert blake2b_ref.selftest() and aes_ref.selftest()
 assert aes_ref.check_constants_against_spec_doc(open(params.DOC).read()) == []
 print('spec model self-tests ok')
 PY
+# tools the checks call (all pre-installed in this image; nothing is fetched)
+for t in clang-14 clang++-14 llvm-link-14 llvm-nm-14 llvm-objcopy-14 llvm-objdump-14 ld.lld gcc g++ objcopy nm; do command -v $t >/dev/null || { echo "missing tool: $t"; exit 1; }; done
+T=$(mktemp -d); printf '.text\nadd x0, x1, x2\n' > $T/a.s; clang-14 --target=aarch64-linux-gnu -c $T/a.s -o $T/a.o
+printf '.text\nadd a0, a1, a2\n' > $T/r.s; clang-14 --target=riscv64-linux-gnu -march=rv64gc -c $T/r.s -o $T/r.o; rm -rf $T
 echo setup ok
